@@ -256,6 +256,8 @@ mod rayon;
 mod state;
 pub mod style;
 mod term_like;
+#[cfg(feature = "verif-hooks")]
+pub mod verif_hooks;
 
 pub use crate::draw_target::ProgressDrawTarget;
 pub use crate::format::{
